@@ -3,6 +3,8 @@ C07 - property theorems: reindexing moves data together with its labels.
 -/
 import DimModel.Spec.C07
 import DimModel.Proofs.C01
+import DimModel.Proofs.C07
+import DimModel.Proofs.C07Like
 namespace DimModel
 open Lib
 
@@ -336,5 +338,547 @@ example :
   refine ⟨by decide, by decide, ?_⟩
   rw [rxMask_any_iff _ _ (by decide) (Or.inl (by decide))]
   exact ⟨.num 9, by decide, by decide⟩
+
+/-! ## `method='left'` / `method='right'`  (the only methods `reindex_axis` accepts besides `None`)
+
+`Spec.IsNeighbour side L v w` (see `DimModel/Spec/C07.lean`) says: `w` is the LEAST label of the axis with
+`v ≤ w` (left) resp. `v < w` (right), and the GREATEST label of the axis when no label qualifies.
+So both methods look FORWARD in sorted order (next label at or after / strictly after the requested value),
+clipped to the last label beyond the range; they differ only when the requested value is itself a label. -/
+
+/-- the neighbour exists on a non-empty axis -/
+theorem neighbour_exists (s : Side) (L : List Label) (v : Label) (hL : L ≠ []) : ∃ w, Spec.IsNeighbour s L v w := by
+  obtain ⟨_, hn⟩ := locateMany_neighbour L [v] s hL 0 (by simp)
+  exact ⟨_, hn⟩
+
+/-- ... and is unique -/
+theorem neighbour_unique {s : Side} {L : List Label} {v w w' : Label}
+    (h : Spec.IsNeighbour s L v w) (h' : Spec.IsNeighbour s L v w') : w = w' := h.unique h'
+
+/-- **C07, `method=side` (values).**  For an axis stored in ANY order (unique labels), any requested labels
+(present or absent, inside or outside the range) and any `raise_error`/`fill_value` (no fill is ever written when a
+method is given), the slice of the result at requested position `k` is the original slice at the neighbour label
+of the `k`-th requested value. -/
+theorem reindex_method_spec {α : Type} (a : DimArray α) (axis : DimKey) (pos : Nat) (newL : List Label)
+    (newKind fillKind : Kind) (fill : α) (raiseErr : Bool) (s : Side) (r : DimArray α)
+    (hpos : axisPos a.axes axis = .ok pos)
+    (hn : (a.axes.getD pos default).labels.Nodup)
+    (hr : reindexAxis a axis newL newKind fill fillKind raiseErr (some s) = .ok r)
+    (j : List Nat) (hj : j.getD pos 0 < newL.length)
+    (w : Label) (hw : Spec.IsNeighbour s (a.axes.getD pos default).labels newL[j.getD pos 0] w) :
+    r.vals.get j = a.vals.get (j.set pos (firstIdx (a.axes.getD pos default).labels w)) := by
+  rw [reindexAxis_vals_raw a axis pos newL newKind fillKind fill raiseErr (some s) r hpos hr]
+  simp only [rxStep, Option.isNone_some, Bool.false_and, Bool.false_eq_true, if_false, Option.getD_some]
+  have hL : (a.axes.getD pos default).labels ≠ [] := List.ne_nil_of_mem hw.1
+  obtain ⟨hlt, hnb⟩ := locateMany_neighbour (a.axes.getD pos default).labels newL s hL _ hj
+  rw [← hnb.unique hw, firstIdx_unique hn hlt]
+
+/-- `method=side` on an axis that is stored in increasing order: exactly `numpy.searchsorted(labels, v, side)`
+clipped to the last position. -/
+theorem reindex_method_sorted {α : Type} (a : DimArray α) (axis : DimKey) (pos : Nat) (newL : List Label)
+    (newKind fillKind : Kind) (fill : α) (raiseErr : Bool) (s : Side) (r : DimArray α)
+    (hpos : axisPos a.axes axis = .ok pos)
+    (hs : (a.axes.getD pos default).labels.Pairwise (fun x y => Label.le x y = true))
+    (hr : reindexAxis a axis newL newKind fill fillKind raiseErr (some s) = .ok r)
+    (j : List Nat) (hj : j.getD pos 0 < newL.length) :
+    r.vals.get j = a.vals.get (j.set pos
+      (min (searchSide Label.lt s (a.axes.getD pos default).labels newL[j.getD pos 0])
+           ((a.axes.getD pos default).labels.length - 1))) := by
+  rw [reindexAxis_vals_raw a axis pos newL newKind fillKind fill raiseErr (some s) r hpos hr]
+  simp only [rxStep, Option.isNone_some, Bool.false_and, Bool.false_eq_true, if_false, Option.getD_some]
+  rw [locateMany_sorted _ newL s hs]
+  rw [List.getD_eq_getElem?_getD, List.getElem?_map, List.getElem?_eq_getElem hj]
+  rfl
+
+/-- with a method the data kind is never widened and the metadata is kept; the labels are the requested ones -/
+theorem reindex_method_meta {α : Type} (a : DimArray α) (axis : DimKey) (pos : Nat) (newL : List Label)
+    (newKind fillKind : Kind) (fill : α) (raiseErr : Bool) (s : Side) (r : DimArray α)
+    (hpos : axisPos a.axes axis = .ok pos)
+    (hr : reindexAxis a axis newL newKind fill fillKind raiseErr (some s) = .ok r) :
+    r.vkind = a.vkind ∧ r.attrs = a.attrs ∧ (r.axes.getD pos default).labels = newL ∧
+    (r.axes.getD pos default).name = (a.axes.getD pos default).name ∧
+    r.vals.shape = a.vals.shape.set pos newL.length := by
+  obtain ⟨nax, hax, hname, hlab, _, _, _, hvk, hat⟩ :=
+    reindexAxis_axes_raw a axis pos newL newKind fillKind fill raiseErr (some s) r hpos hr
+  have hlt := axisPos_lt hpos
+  have hg : r.axes.getD pos default = nax := by
+    rw [hax]; simp [List.getD_eq_getElem?_getD, hlt]
+  refine ⟨by simpa using hvk, hat, by rw [hg, hlab], by rw [hg, hname], ?_⟩
+  rw [reindexAxis_vals_raw a axis pos newL newKind fillKind fill raiseErr (some s) r hpos hr]
+  rfl
+
+/-- `method='left'`: a requested label that exists gets its own slice -/
+theorem neighbour_left_present (L : List Label) (v : Label) (hv : v ∈ L) : Spec.IsNeighbour .left L v v :=
+  ⟨hv, Or.inl ⟨Label.le_refl v, fun _ _ hx => hx⟩⟩
+
+/-- `method='right'`: a requested label that exists and is not the largest gets the slice of a strictly LARGER
+label (the next one), NOT its own -/
+theorem neighbour_right_present_next (L : List Label) (v w : Label) (hw : Spec.IsNeighbour .right L v w)
+    (hex : ∃ x ∈ L, Label.lt v x = true) : Label.lt v w = true := by
+  obtain ⟨_, h | h⟩ := hw
+  · exact h.1
+  · obtain ⟨x, hx, hlt⟩ := hex
+    have := h.1 x hx
+    simp only [Spec.sideCond] at this
+    rw [hlt] at this; cases this
+
+/-- `method='right'`: only the largest label of the axis gets its own slice -/
+theorem neighbour_right_present_last (L : List Label) (v w : Label) (hw : Spec.IsNeighbour .right L v w)
+    (hv : v ∈ L) (hmax : ∀ x ∈ L, Label.le x v = true) : w = v := by
+  obtain ⟨hwL, h | h⟩ := hw
+  · have h1 := h.1
+    simp only [Spec.sideCond, Label.lt] at h1
+    rw [hmax w hwL] at h1; cases h1
+  · exact Label.le_antisymm _ _ (hmax w hwL) (h.2 v hv)
+
+theorem IsNeighbour_congr {s s' : Side} {L : List Label} {v w : Label}
+    (hc : ∀ x ∈ L, Spec.sideCond s v x = Spec.sideCond s' v x) (h : Spec.IsNeighbour s L v w) :
+    Spec.IsNeighbour s' L v w := by
+  obtain ⟨hw, h | h⟩ := h
+  · exact ⟨hw, Or.inl ⟨by rw [← hc w hw]; exact h.1, fun x hx hcx => h.2 x hx (by rw [hc x hx]; exact hcx)⟩⟩
+  · exact ⟨hw, Or.inr ⟨fun x hx => by rw [← hc x hx]; exact h.1 x hx, h.2⟩⟩
+
+/-- tie rule: for a requested value that is NOT a label, `left` and `right` agree -/
+theorem neighbour_absent_side_irrelevant (L : List Label) (v w : Label) (hv : v ∉ L) :
+    Spec.IsNeighbour .left L v w ↔ Spec.IsNeighbour .right L v w := by
+  have hc : ∀ x ∈ L, Spec.sideCond .left v x = Spec.sideCond .right v x := by
+    intro x hx
+    simp only [Spec.sideCond, Label.lt]
+    cases h1 : Label.le v x <;> cases h2 : Label.le x v <;> simp
+    · have := Label.le_total v x; simp [h1, h2] at this
+    · exact hv (Label.le_antisymm v x h1 h2 ▸ hx)
+  exact ⟨IsNeighbour_congr hc, IsNeighbour_congr (fun x hx => (hc x hx).symm)⟩
+
+/-- below the range: the neighbour is the smallest label -/
+theorem neighbour_below (s : Side) (L : List Label) (v w : Label) (hw : Spec.IsNeighbour s L v w)
+    (hlo : ∀ x ∈ L, Label.lt v x = true) : ∀ x ∈ L, Label.le w x = true := by
+  have hc : ∀ x ∈ L, Spec.sideCond s v x = true := by
+    intro x hx
+    cases s
+    · exact Label.le_of_lt (hlo x hx)
+    · exact hlo x hx
+  obtain ⟨hwL, h | h⟩ := hw
+  · exact fun x hx => h.2 x hx (hc x hx)
+  · have := h.1 w hwL; rw [hc w hwL] at this; cases this
+
+/-- beyond the range: the neighbour is the largest label (`take(mode='clip')`) -/
+theorem neighbour_beyond (s : Side) (L : List Label) (v w : Label) (hw : Spec.IsNeighbour s L v w)
+    (hhi : ∀ x ∈ L, Label.lt x v = true) : ∀ x ∈ L, Label.le x w = true := by
+  have hc : ∀ x ∈ L, Spec.sideCond s v x = false := by
+    intro x hx
+    have h1 := hhi x hx
+    cases s
+    · simpa [Spec.sideCond, Label.lt] using h1
+    · simp only [Spec.sideCond]; exact Label.not_lt_of_le (Label.le_of_lt h1)
+  obtain ⟨hwL, h | h⟩ := hw
+  · have := h.1; rw [hc w hwL] at this; cases this
+  · exact h.2
+
+/-- the statement "a present label keeps its own slice" is FALSE for `method='right'`: on the axis `1,2,3`
+the requested label `2` is served from label `3` -/
+theorem reindex_right_present_counterexample :
+    Spec.IsNeighbour .right [.num 1, .num 2, .num 3] (.num 2) (.num 3) ∧
+    ¬ Spec.IsNeighbour .right [.num 1, .num 2, .num 3] (.num 2) (.num 2) := by
+  have h : Spec.IsNeighbour .right [.num 1, .num 2, .num 3] (.num 2) (.num 3) := by
+    refine ⟨by decide, Or.inl ⟨by decide, ?_⟩⟩
+    intro x hx hc
+    simp only [List.mem_cons, List.not_mem_nil, or_false] at hx
+    rcases hx with rfl | rfl | rfl
+    · revert hc; decide
+    · revert hc; decide
+    · decide
+  exact ⟨h, fun h' => absurd (h'.unique h) (by decide)⟩
+
+/-! ## kind widening (`put(..., cast=True)` / `_maybe_cast_type`) -/
+
+/-- **C07 kinds.**  Without method, the data kind is widened by `_maybe_cast_type(data, fill_value)` EXACTLY when a
+fill is written, i.e. when some requested label is absent; otherwise it is unchanged.  The same holds for the
+kind of the axis labels w.r.t. the kind of the requested labels. -/
+theorem reindex_kind {α : Type} (a : DimArray α) (axis : DimKey) (pos : Nat) (newL : List Label)
+    (newKind fillKind : Kind) (fill : α) (r : DimArray α)
+    (hpos : axisPos a.axes axis = .ok pos)
+    (hn : (a.axes.getD pos default).labels.Nodup)
+    (hr : reindexAxis a axis newL newKind fill fillKind false none = .ok r) :
+    ((∃ v ∈ newL, v ∉ (a.axes.getD pos default).labels) →
+        r.vkind = maybeCastKind a.vkind fillKind ∧
+        (r.axes.getD pos default).kind = maybeCastKind (a.axes.getD pos default).kind newKind) ∧
+    ((∀ v ∈ newL, v ∈ (a.axes.getD pos default).labels) →
+        r.vkind = a.vkind ∧ (r.axes.getD pos default).kind = (a.axes.getD pos default).kind) := by
+  obtain ⟨nax, hax, _, _, _, _, hk, hvk, _⟩ :=
+    reindexAxis_axes_raw a axis pos newL newKind fillKind fill false none r hpos hr
+  have hL := reindexAxis_nonempty a axis pos newL newKind fillKind fill false none r hpos hr
+  have hlt := axisPos_lt hpos
+  have hg : r.axes.getD pos default = nax := by
+    rw [hax]; simp [List.getD_eq_getElem?_getD, hlt]
+  have hiff := rxMask_any_iff (a.axes.getD pos default).labels newL hn hL
+  unfold rxMask at hiff
+  simp only [Option.getD_none, Option.isNone_none, Bool.true_and] at hk hvk
+  rw [hg]
+  constructor
+  · intro hex
+    have := hiff.mpr hex
+    rw [hvk, hk, if_pos this, if_pos this]; exact ⟨rfl, rfl⟩
+  · intro hall
+    have : ¬ ((mismatchMask (a.axes.getD pos default).labels
+        (locateMany (a.axes.getD pos default).labels newL .left) newL).any id = true) := by
+      intro h
+      obtain ⟨v, hv, hvL⟩ := hiff.mp h
+      exact hvL (hall v hv)
+    rw [hvk, hk, if_neg this, if_neg this]; exact ⟨rfl, rfl⟩
+
+/-- the default `fill_value=nan` promotes integer data to float and leaves float data alone -/
+example : maybeCastKind .i .f = .f ∧ maybeCastKind .f .f = .f ∧ maybeCastKind .f .i = .f := ⟨rfl, rfl, rfl⟩
+
+/-! ## composition -/
+
+/-- **C07 composition.**  Reindexing onto `newL` and then onto labels `sub` all taken from `newL` gives the same
+values as reindexing directly onto `sub` (axis labels and `newL` duplicate-free; `sub` may repeat / permute). -/
+theorem reindex_reindex_sub {α : Type} (a : DimArray α) (axis : DimKey) (pos : Nat) (newL sub : List Label)
+    (k1 k2 k3 fillKind : Kind) (fill : α) (r1 r2 rd : DimArray α)
+    (hpos : axisPos a.axes axis = .ok pos)
+    (hn : (a.axes.getD pos default).labels.Nodup) (hn2 : newL.Nodup)
+    (hsub : ∀ v ∈ sub, v ∈ newL)
+    (h1 : reindexAxis a axis newL k1 fill fillKind false none = .ok r1)
+    (h2 : reindexAxis r1 axis sub k2 fill fillKind false none = .ok r2)
+    (hd : reindexAxis a axis sub k3 fill fillKind false none = .ok rd)
+    (j : List Nat) (hjp : pos < j.length) (hj : j.getD pos 0 < sub.length) :
+    r2.vals.get j = rd.vals.get j := by
+  have hnames := reindexAxis_names a axis pos newL k1 fillKind fill false none r1 hpos h1
+  have hpos1 : axisPos r1.axes axis = .ok pos := by rw [axisPos_congr hnames]; exact hpos
+  have hlab1 := (reindexAxis_getD_pos a axis pos newL k1 fillKind fill false none r1 hpos h1).1
+  have hL1 := reindexAxis_nonempty r1 axis pos sub k2 fillKind fill false none r2 hpos1 h2
+  have hL0 := reindexAxis_nonempty a axis pos newL k1 fillKind fill false none r1 hpos h1
+  have hLd := reindexAxis_nonempty a axis pos sub k3 fillKind fill false none rd hpos hd
+  rw [reindex_spec r1 axis pos sub k2 fillKind fill r2 hpos1 (by rw [hlab1]; exact hn2) hL1 h2 j hj,
+      reindex_spec a axis pos sub k3 fillKind fill rd hpos hn hLd hd j hj]
+  unfold Spec.reindexVals
+  simp only [hlab1]
+  have hget : sub.getD (j.getD pos 0) Label.none = sub[j.getD pos 0] := by
+    rw [List.getD_eq_getElem?_getD, List.getElem?_eq_getElem hj]; rfl
+  rw [hget]
+  have hv : sub[j.getD pos 0] ∈ newL := hsub _ (List.getElem_mem hj)
+  simp only [hv, if_true]
+  have hq := firstIdx_lt_iff.mpr hv
+  have hjq : (j.set pos (firstIdx newL sub[j.getD pos 0])).getD pos 0 = firstIdx newL sub[j.getD pos 0] := by
+    simp [List.getD_eq_getElem?_getD, hjp]
+  rw [reindex_spec a axis pos newL k1 fillKind fill r1 hpos hn hL0 h1 _ (by rw [hjq]; exact hq)]
+  unfold Spec.reindexVals
+  simp only [hjq]
+  have hget2 : newL.getD (firstIdx newL sub[j.getD pos 0]) Label.none = sub[j.getD pos 0] := by
+    rw [List.getD_eq_getElem?_getD, List.getElem?_eq_getElem hq]
+    exact firstIdx_getElem hq
+  rw [hget2, List.set_set]
+
+/-! ## `reindex_like` -/
+
+open Spec (tmplFor)
+
+/-- **C07 `reindex_like` (axes).**  Same dimensions in the same order; every axis whose name occurs in the template
+carries exactly the template's labels (own metadata kept), every other axis is untouched; array metadata kept.
+Any method, any `raise_error`. -/
+theorem reindex_like_axes {α : Type} (a : DimArray α) (tmpl : List Axis) (fill : α) (fillKind : Kind)
+    (raiseErr : Bool) (method : Option Side) (r : DimArray α)
+    (hnames : (a.axes.map (·.name)).Nodup)
+    (hr : reindexLike a tmpl fill fillKind raiseErr method = .ok r) :
+    r.axes.map (·.name) = a.axes.map (·.name) ∧ r.attrs = a.attrs ∧
+    ∀ i, i < a.axes.length →
+      match tmplFor a.axes tmpl i with
+      | some t => (r.axes.getD i default).labels = t.labels ∧
+                  (r.axes.getD i default).attrs = (a.axes.getD i default).attrs
+      | none => r.axes[i]? = a.axes[i]? := by
+  obtain ⟨hnm, _, hlt, _, _, hat⟩ := reindexLike_inv a tmpl fill fillKind raiseErr method hnames r hr
+  refine ⟨hnm, hat, fun i hi => ?_⟩
+  have := hlt i hi
+  cases h : tmplFor a.axes tmpl i with
+  | none => rw [h] at this; exact this
+  | some t => rw [h] at this; exact ⟨this.1, this.2.1⟩
+
+/-- **C07 `reindex_like` (values), end to end.**  For an array with distinct dimension names and duplicate-free
+labels on the shared axes, any template (axes in any order, extra axes, missing axes), any fill value:
+an in-range cell of the result holds the fill value as soon as, along SOME shared axis, the template label at
+that coordinate is absent from the array's axis; otherwise it holds the original cell found by replacing, along
+EVERY shared axis, the coordinate by the position of the template label (`Spec.reindexLikeIdx`), the coordinates
+along non-shared axes being unchanged. -/
+theorem reindex_like_spec {α : Type} (a : DimArray α) (tmpl : List Axis) (fill : α) (fillKind : Kind)
+    (r : DimArray α)
+    (hnames : (a.axes.map (·.name)).Nodup)
+    (hn : ∀ i t, i < a.axes.length → tmplFor a.axes tmpl i = some t → (a.axes.getD i default).labels.Nodup)
+    (hr : reindexLike a tmpl fill fillKind false none = .ok r)
+    (j : List Nat) (hjl : j.length = a.axes.length)
+    (hj : ∀ i t, i < a.axes.length → tmplFor a.axes tmpl i = some t → j.getD i 0 < t.labels.length) :
+    ((∀ i t, i < a.axes.length → tmplFor a.axes tmpl i = some t →
+        t.labels.getD (j.getD i 0) Label.none ∈ (a.axes.getD i default).labels) →
+      r.vals.get j = a.vals.get (Spec.reindexLikeIdx a.axes tmpl j)) ∧
+    ((∃ i t, i < a.axes.length ∧ tmplFor a.axes tmpl i = some t ∧
+        t.labels.getD (j.getD i 0) Label.none ∉ (a.axes.getD i default).labels) →
+      r.vals.get j = fill) := by
+  obtain ⟨_, _, hlt, hval, _, _⟩ := reindexLike_inv a tmpl fill fillKind false none hnames r hr
+  -- the raw miss flag, axis by axis
+  have hmiss1 : ∀ i t, i < a.axes.length → tmplFor a.axes tmpl i = some t →
+      (rlMiss1 a.axes tmpl none i (j.getD i 0) = true ↔
+        t.labels.getD (j.getD i 0) Label.none ∉ (a.axes.getD i default).labels) := by
+    intro i t hi ht
+    have hL := hlt i hi
+    rw [ht] at hL
+    have hx := hj i t hi ht
+    have := rxMask_iff (a.axes.getD i default).labels t.labels (hn i t hi ht) hL.2.2 (j.getD i 0) hx
+    have hget : t.labels.getD (j.getD i 0) Label.none = t.labels[j.getD i 0] := by
+      rw [List.getD_eq_getElem?_getD, List.getElem?_eq_getElem hx]; rfl
+    rw [hget, ← this]
+    simp only [rlMiss1, ht, Option.isNone_none, Bool.true_and, Option.getD_none, rxMask]
+  constructor
+  · intro hall
+    have hm : rlMiss a.axes tmpl none a.axes.length j = false := by
+      cases hc : rlMiss a.axes tmpl none a.axes.length j with
+      | false => rfl
+      | true =>
+        exfalso
+        simp only [rlMiss, List.any_eq_true, List.mem_range] at hc
+        obtain ⟨i, hi, h⟩ := hc
+        cases ht : tmplFor a.axes tmpl i with
+        | none => simp [rlMiss1, ht] at h
+        | some t => exact (hmiss1 i t hi ht).mp h (hall i t hi ht)
+    rw [hval j, hm]
+    simp only [Bool.false_eq_true, if_false]
+    congr 1
+    unfold rlIdx Spec.reindexLikeIdx
+    apply List.ext_getElem?
+    intro i
+    rw [List.getElem?_mapIdx, List.getElem?_mapIdx]
+    by_cases hi : i < j.length
+    · rw [List.getElem?_eq_getElem hi]
+      simp only [Option.map_some]
+      have hi' : i < a.axes.length := hjl ▸ hi
+      simp only [hi', if_true]
+      congr 1
+      unfold rlIdx1
+      cases ht : tmplFor a.axes tmpl i with
+      | none => rfl
+      | some t =>
+        simp only [Option.getD_none]
+        have hji : j.getD i 0 = j[i] := by
+          rw [List.getD_eq_getElem?_getD, List.getElem?_eq_getElem hi]; rfl
+        have hx := hj i t hi' ht
+        have hp := hall i t hi' ht
+        rw [hji] at hx hp
+        have hget : t.labels.getD j[i] Label.none = t.labels[j[i]] := by
+          rw [List.getD_eq_getElem?_getD, List.getElem?_eq_getElem hx]; rfl
+        rw [hget] at hp ⊢
+        exact (rxIndex_present (a.axes.getD i default).labels t.labels (hn i t hi' ht) j[i] hx hp).1
+    · rw [List.getElem?_eq_none (Nat.le_of_not_lt hi)]; rfl
+  · rintro ⟨i, t, hi, ht, habs⟩
+    have hm : rlMiss a.axes tmpl none a.axes.length j = true := by
+      simp only [rlMiss, List.any_eq_true, List.mem_range]
+      exact ⟨i, hi, (hmiss1 i t hi ht).mpr habs⟩
+    rw [hval j, hm]
+    simp
+
+/-- **C07 `reindex_like` with `method=side` (values).**  No fill is written; along every shared axis the coordinate
+is replaced by the position of the neighbour label (`w i`) of the template label. -/
+theorem reindex_like_method_spec {α : Type} (a : DimArray α) (tmpl : List Axis) (fill : α) (fillKind : Kind)
+    (raiseErr : Bool) (s : Side) (r : DimArray α)
+    (hnames : (a.axes.map (·.name)).Nodup)
+    (hn : ∀ i t, i < a.axes.length → tmplFor a.axes tmpl i = some t → (a.axes.getD i default).labels.Nodup)
+    (hr : reindexLike a tmpl fill fillKind raiseErr (some s) = .ok r)
+    (j : List Nat) (hjl : j.length = a.axes.length)
+    (hj : ∀ i t, i < a.axes.length → tmplFor a.axes tmpl i = some t → j.getD i 0 < t.labels.length)
+    (w : Nat → Label)
+    (hw : ∀ i t, i < a.axes.length → tmplFor a.axes tmpl i = some t →
+      Spec.IsNeighbour s (a.axes.getD i default).labels (t.labels.getD (j.getD i 0) Label.none) (w i)) :
+    r.vals.get j = a.vals.get (j.mapIdx fun i x =>
+      match tmplFor a.axes tmpl i with
+      | some _ => firstIdx (a.axes.getD i default).labels (w i)
+      | none => x) := by
+  obtain ⟨_, _, _, hval, _, _⟩ := reindexLike_inv a tmpl fill fillKind raiseErr (some s) hnames r hr
+  have hm : rlMiss a.axes tmpl (some s) a.axes.length j = false := by
+    cases hc : rlMiss a.axes tmpl (some s) a.axes.length j with
+    | false => rfl
+    | true =>
+      exfalso
+      simp only [rlMiss, List.any_eq_true, List.mem_range] at hc
+      obtain ⟨i, _, h⟩ := hc
+      cases ht : tmplFor a.axes tmpl i <;> simp [rlMiss1, ht] at h
+  rw [hval j, hm]
+  simp only [Bool.false_eq_true, if_false]
+  congr 1
+  unfold rlIdx
+  apply List.ext_getElem?
+  intro i
+  rw [List.getElem?_mapIdx, List.getElem?_mapIdx]
+  by_cases hi : i < j.length
+  · rw [List.getElem?_eq_getElem hi]
+    simp only [Option.map_some]
+    have hi' : i < a.axes.length := hjl ▸ hi
+    simp only [hi', if_true]
+    congr 1
+    unfold rlIdx1
+    cases ht : tmplFor a.axes tmpl i with
+    | none => rfl
+    | some t =>
+      simp only [Option.getD_some]
+      have hji : j.getD i 0 = j[i] := by
+        rw [List.getD_eq_getElem?_getD, List.getElem?_eq_getElem hi]; rfl
+      have hx := hj i t hi' ht
+      have hwi := hw i t hi' ht
+      rw [hji] at hx hwi
+      have hget : t.labels.getD j[i] Label.none = t.labels[j[i]] := by
+        rw [List.getD_eq_getElem?_getD, List.getElem?_eq_getElem hx]; rfl
+      rw [hget] at hwi
+      have hL : (a.axes.getD i default).labels ≠ [] := List.ne_nil_of_mem hwi.1
+      obtain ⟨hlt, hnb⟩ := locateMany_neighbour (a.axes.getD i default).labels t.labels s hL j[i] hx
+      rw [← hnb.unique hwi, firstIdx_unique (hn i t hi' ht) hlt]
+  · rw [List.getElem?_eq_none (Nat.le_of_not_lt hi)]; rfl
+
+/-- **C07 `reindex_like` (data kind).**  Widened by `_maybe_cast_type(data, fill_value)` exactly when a fill is
+written along some shared axis; never with a method. -/
+theorem reindex_like_vkind {α : Type} (a : DimArray α) (tmpl : List Axis) (fill : α) (fillKind : Kind)
+    (r : DimArray α)
+    (hnames : (a.axes.map (·.name)).Nodup)
+    (hn : ∀ i t, i < a.axes.length → tmplFor a.axes tmpl i = some t → (a.axes.getD i default).labels.Nodup)
+    (hr : reindexLike a tmpl fill fillKind false none = .ok r) :
+    ((∃ i t, i < a.axes.length ∧ tmplFor a.axes tmpl i = some t ∧
+        ∃ v ∈ t.labels, v ∉ (a.axes.getD i default).labels) → r.vkind = maybeCastKind a.vkind fillKind) ∧
+    ((∀ i t, i < a.axes.length → tmplFor a.axes tmpl i = some t →
+        ∀ v ∈ t.labels, v ∈ (a.axes.getD i default).labels) → r.vkind = a.vkind) := by
+  obtain ⟨_, _, hlt, _, hvk, _⟩ := reindexLike_inv a tmpl fill fillKind false none hnames r hr
+  have hhit : ∀ i t, i < a.axes.length → tmplFor a.axes tmpl i = some t →
+      (rlHit1 a.axes tmpl none i = true ↔ ∃ v ∈ t.labels, v ∉ (a.axes.getD i default).labels) := by
+    intro i t hi ht
+    have hL := hlt i hi
+    rw [ht] at hL
+    rw [← rxMask_any_iff (a.axes.getD i default).labels t.labels (hn i t hi ht) hL.2.2]
+    simp only [rlHit1, ht, Option.getD_none, rxMask]
+  simp only [Option.isNone_none, Bool.true_and] at hvk
+  constructor
+  · rintro ⟨i, t, hi, ht, hex⟩
+    have : (List.range a.axes.length).any (rlHit1 a.axes tmpl none) = true := by
+      simp only [List.any_eq_true, List.mem_range]
+      exact ⟨i, hi, (hhit i t hi ht).mpr hex⟩
+    rw [hvk, if_pos this]
+  · intro hall
+    have : ¬ ((List.range a.axes.length).any (rlHit1 a.axes tmpl none) = true) := by
+      simp only [List.any_eq_true, List.mem_range]
+      rintro ⟨i, hi, h⟩
+      cases ht : tmplFor a.axes tmpl i with
+      | none => simp [rlHit1, ht] at h
+      | some t =>
+        obtain ⟨v, hv, hvL⟩ := (hhit i t hi ht).mp h
+        exact hvL (hall i t hi ht v hv)
+    rw [hvk, if_neg this]
+
+theorem reindex_like_method_vkind {α : Type} (a : DimArray α) (tmpl : List Axis) (fill : α) (fillKind : Kind)
+    (raiseErr : Bool) (s : Side) (r : DimArray α)
+    (hnames : (a.axes.map (·.name)).Nodup)
+    (hr : reindexLike a tmpl fill fillKind raiseErr (some s) = .ok r) : r.vkind = a.vkind := by
+  obtain ⟨_, _, _, _, hvk, _⟩ := reindexLike_inv a tmpl fill fillKind raiseErr (some s) hnames r hr
+  simpa using hvk
+
+/-! ## non-vacuity: the hypotheses of the theorems above are satisfiable on concrete inputs, and the theorems
+compute the expected cells (`decide` cannot run `locate_many` itself, whose sort is defined by well-founded
+recursion, so the results are obtained THROUGH the theorems) -/
+
+/-- 1-D array on the shuffled axis `x = [4,1,2]`; the cell at position `i` holds `10*i + 7` -/
+def exRxA : DimArray Int :=
+  { axes := [{ name := "x", labels := [.num 4, .num 1, .num 2], kind := .i }]
+    vals := { shape := [3], get := fun j => 10 * (j.getD 0 0 : Int) + 7 } }
+
+theorem exRxA_pos : axisPos exRxA.axes (.name "x") = .ok 0 := by rfl
+
+/-- non-vacuity of `reindex_method_spec`, `method='right'`, requests `3` (absent, inside), `2` (PRESENT), `9`
+(beyond), `0` (below): the present label `2` (own cell `27`) is served from label `4` (cell `7`), as in Python:
+`a.reindex_axis([3,2,9,0], method='right').values == [7, 7, 7, 17]` -/
+example : ∃ r, reindexAxis exRxA (.name "x") [.num 3, .num 2, .num 9, .num 0] .i 0 .i false (some .right) = .ok r ∧
+    r.vals.get [0] = 7 ∧ r.vals.get [1] = 7 ∧ r.vals.get [2] = 7 ∧ r.vals.get [3] = 17 := by
+  obtain ⟨r, hr⟩ := reindexAxis_succeeds exRxA (.name "x") 0 [.num 3, .num 2, .num 9, .num 0] .i .i 0 (some .right)
+    exRxA_pos (Or.inl (by decide))
+  have hs := fun j hj w hw => reindex_method_spec exRxA (.name "x") 0 [.num 3, .num 2, .num 9, .num 0] .i .i 0 false .right r
+    exRxA_pos (by decide) hr j hj w hw
+  refine ⟨r, hr, ?_, ?_, ?_, ?_⟩
+  · rw [hs [0] (by decide) (.num 4) (by unfold Spec.IsNeighbour; decide)]; decide
+  · rw [hs [1] (by decide) (.num 4) (by unfold Spec.IsNeighbour; decide)]; decide
+  · rw [hs [2] (by decide) (.num 4) (by unfold Spec.IsNeighbour; decide)]; decide
+  · rw [hs [3] (by decide) (.num 1) (by unfold Spec.IsNeighbour; decide)]; decide
+
+/-- non-vacuity of `reindex_method_sorted` (axis `1,2,4` stored in order; requests inside, on, beyond, below) -/
+example :
+    let a : DimArray Int := { axes := [{ name := "x", labels := [.num 1, .num 2, .num 4], kind := .i }]
+                              vals := { shape := [3], get := fun j => 10 * (j.getD 0 0 : Int) + 7 } }
+    ∃ r, reindexAxis a (.pos 0) [.num 3, .num 2, .num 9, .num 0] .i 0 .i false (some .left) = .ok r ∧
+      r.vals.get [0] = 27 ∧ r.vals.get [1] = 17 ∧ r.vals.get [2] = 27 ∧ r.vals.get [3] = 7 := by
+  intro a
+  have hpos : axisPos a.axes (.pos 0) = .ok 0 := by rfl
+  obtain ⟨r, hr⟩ := reindexAxis_succeeds a (.pos 0) 0 [.num 3, .num 2, .num 9, .num 0] .i .i 0 (some .left)
+    hpos (Or.inl (by decide))
+  have hs := fun j hj => reindex_method_sorted a (.pos 0) 0 [.num 3, .num 2, .num 9, .num 0] .i .i 0 false .left r
+    hpos (by decide) hr j hj
+  refine ⟨r, hr, ?_, ?_, ?_, ?_⟩
+  · rw [hs [0] (by decide)]; decide
+  · rw [hs [1] (by decide)]; decide
+  · rw [hs [2] (by decide)]; decide
+  · rw [hs [3] (by decide)]; decide
+
+/-- non-vacuity of `reindex_kind` and `reindex_reindex_sub` -/
+example : ∃ r1 r2 rd,
+    reindexAxis exRxA (.name "x") [.num 2, .num 3, .num 4] .i 0 .f false none = .ok r1 ∧
+    reindexAxis r1 (.name "x") [.num 3, .num 4, .num 3] .i 0 .f false none = .ok r2 ∧
+    reindexAxis exRxA (.name "x") [.num 3, .num 4, .num 3] .i 0 .f false none = .ok rd ∧
+    r1.vkind = .f ∧ (∀ k, k < 3 → r2.vals.get [k] = rd.vals.get [k]) := by
+  obtain ⟨r1, h1⟩ := reindexAxis_succeeds exRxA (.name "x") 0 [.num 2, .num 3, .num 4] .i .f 0 none
+    exRxA_pos (Or.inl (by decide))
+  have hnames := reindexAxis_names exRxA (.name "x") 0 _ .i .f 0 false none r1 exRxA_pos h1
+  have hpos1 : axisPos r1.axes (.name "x") = .ok 0 := by rw [axisPos_congr hnames]; exact exRxA_pos
+  have hlab1 := (reindexAxis_getD_pos exRxA (.name "x") 0 _ .i .f 0 false none r1 exRxA_pos h1).1
+  obtain ⟨r2, h2⟩ := reindexAxis_succeeds r1 (.name "x") 0 [.num 3, .num 4, .num 3] .i .f 0 none
+    hpos1 (Or.inl (by rw [hlab1]; decide))
+  obtain ⟨rd, hd⟩ := reindexAxis_succeeds exRxA (.name "x") 0 [.num 3, .num 4, .num 3] .i .f 0 none
+    exRxA_pos (Or.inl (by decide))
+  refine ⟨r1, r2, rd, h1, h2, hd, ?_, ?_⟩
+  · exact ((reindex_kind exRxA (.name "x") 0 _ .i .f 0 r1 exRxA_pos (by decide) h1).1
+      ⟨.num 3, by decide, by decide⟩).1
+  · intro k hk
+    exact reindex_reindex_sub exRxA (.name "x") 0 [.num 2, .num 3, .num 4] [.num 3, .num 4, .num 3] .i .i .i .f 0
+      r1 r2 rd exRxA_pos (by decide) (by decide) (by decide) h1 h2 hd [k] (by simp) (by simpa using hk)
+
+/-- 2-D array `x = [4,1,2]` (shuffled), `y = ["a","b"]`; the cell at `(i,k)` holds `10*i + k` -/
+def exRlA : DimArray Int :=
+  { axes := [{ name := "x", labels := [.num 4, .num 1, .num 2], kind := .i },
+             { name := "y", labels := [.str "a", .str "b"], kind := .U }]
+    vals := { shape := [3, 2], get := fun j => 10 * (j.getD 0 0 : Int) + (j.getD 1 0 : Int) } }
+
+/-- template: axes in another order, `x` permuted/extended, one axis (`z`) that the array does not have -/
+def exRlT : List Axis :=
+  [{ name := "z", labels := [.num 0], kind := .i },
+   { name := "x", labels := [.num 2, .num 3, .num 4, .num 2], kind := .i }]
+
+theorem exRl_t0 : tmplFor exRlA.axes exRlT 0 = some { name := "x", labels := [.num 2, .num 3, .num 4, .num 2], kind := .i } := by
+  decide
+theorem exRl_t1 : tmplFor exRlA.axes exRlT 1 = none := by decide
+
+example : ∃ r, reindexLike exRlA exRlT (-1) .i false none = .ok r ∧
+    r.vals.get [0, 1] = 21 ∧ r.vals.get [1, 1] = -1 ∧ r.vals.get [2, 0] = 0 ∧ r.vals.get [3, 1] = 21 := by
+  have hnames : (exRlA.axes.map (·.name)).Nodup := by decide
+  have hcases : ∀ (P : Nat → Axis → Prop), P 0 { name := "x", labels := [.num 2, .num 3, .num 4, .num 2], kind := .i } →
+      ∀ i t, i < exRlA.axes.length → tmplFor exRlA.axes exRlT i = some t → P i t := by
+    intro P h0 i t hi ht
+    have : i = 0 ∨ i = 1 := by simp [exRlA] at hi; omega
+    rcases this with rfl | rfl
+    · rw [exRl_t0] at ht; cases ht; exact h0
+    · rw [exRl_t1] at ht; cases ht
+  obtain ⟨r, hr⟩ := reindexLike_succeeds exRlA exRlT (-1) .i none hnames
+    (hcases (fun i t => (exRlA.axes.getD i default).labels ≠ [] ∨ t.labels = []) (Or.inl (by decide)))
+  have hs := fun j hjl hj => reindex_like_spec exRlA exRlT (-1) .i r hnames
+    (hcases (fun i _ => (exRlA.axes.getD i default).labels.Nodup) (by decide)) hr j hjl hj
+  refine ⟨r, hr, ?_, ?_, ?_, ?_⟩
+  · rw [(hs [0, 1] rfl (hcases (fun i t => [0, 1].getD i 0 < t.labels.length) (by decide))).1
+      (hcases (fun i t => t.labels.getD ([0, 1].getD i 0) Label.none ∈ (exRlA.axes.getD i default).labels) (by decide))]
+    decide
+  · rw [(hs [1, 1] rfl (hcases (fun i t => [1, 1].getD i 0 < t.labels.length) (by decide))).2
+      ⟨0, _, by decide, exRl_t0, by decide⟩]
+  · rw [(hs [2, 0] rfl (hcases (fun i t => [2, 0].getD i 0 < t.labels.length) (by decide))).1
+      (hcases (fun i t => t.labels.getD ([2, 0].getD i 0) Label.none ∈ (exRlA.axes.getD i default).labels) (by decide))]
+    decide
+  · rw [(hs [3, 1] rfl (hcases (fun i t => [3, 1].getD i 0 < t.labels.length) (by decide))).1
+      (hcases (fun i t => t.labels.getD ([3, 1].getD i 0) Label.none ∈ (exRlA.axes.getD i default).labels) (by decide))]
+    decide
 
 end DimModel
